@@ -77,6 +77,7 @@ static void fill_move()
         reg<T>("expand", [](const xsv_args* a) { st<T>(a->out[0], xs::expand(ld<T>(a->in[0]), ldb<T>(a->in[2]))); });
     if constexpr (xsv_cap<CAP_transpose, T>::value)
         reg<T>("transpose", [](const xsv_args* a) {
+            constexpr size_t n = B<T>::size;
             B<T> m[n];
             for (size_t i = 0; i < n; ++i)
                 m[i] = ld<T>(reinterpret_cast<const T*>(a->in[0]) + i * n);
